@@ -410,3 +410,29 @@ def explore_lines(programs, compression=None, fractions=(1.0, 0.5, 0.25), limit=
         schedule = [0] * p + [1] * q + [0] * (n0 - p + 5) + [1] * (n1 + 5)
         out = run_schedule(programs, schedule, compression, lines=True)
         yield [c[1] for c in out["choices"] if c[1] is not None], out
+
+
+def explore_lines2(programs, compression=None, fractions=(0.25, 0.5, 0.75), limit=400, offset=0):
+    """line-level schedules with TWO preemptions of thread 0: it runs p lines, thread 1 runs a fraction of its steps, thread 0
+    runs r more lines, thread 1 runs to its end, thread 0 finishes (further threads afterwards).  All (p, fraction, r) when
+    they fit into `limit`, else an even sample of them (rotated by `offset`, so that different seeds see different samples)."""
+    base = run_schedule(programs, [], compression, lines=True)
+    taken = [c[1] for c in base["choices"] if c[1] is not None]
+    n0 = sum(1 for t in taken if t == 0)
+    n1 = sum(1 for t in taken if t == 1)
+    if n0 < 2 or n1 == 0:
+        return
+    cands = []
+    for p in range(0, n0):
+        for fr in fractions:
+            q = max(1, int(n1 * fr))
+            for r in range(1, n0 - p + 1):
+                cands.append((p, q, r))
+    if len(cands) > limit:
+        step = len(cands) / float(limit)
+        start = (offset % max(1, int(step)))
+        cands = [cands[min(len(cands) - 1, start + int(i * step))] for i in range(limit)]
+    for p, q, r in cands:
+        schedule = [0] * p + [1] * q + [0] * r + [1] * (n1 + 5) + [0] * (n0 + 5) + [1] * 5
+        out = run_schedule(programs, schedule, compression, lines=True)
+        yield [c[1] for c in out["choices"] if c[1] is not None], out
